@@ -90,9 +90,6 @@ C16_Q = [
 ]
 C16_T = [
     H("r16_transform_n6", "reference side, inputs <=6 bytes", ["dropped text followed by markup"], cost=9, timeout_thorough=3600),
-    H("d16_tag_n3", DIFF + "start/empty tag <=3 bytes; expand_empty_elements symbolic (both runs real, no reference)", ["empty element expanded"], cost=9, timeout_thorough=3600),
-    H("d16_end_n3", DIFF + "end tag <=3 bytes; trim_markup_names_in_closing_tags symbolic", ["end name actually trimmed"], cost=9, timeout_thorough=3600),
-    H("d16_comment_n3", DIFF + "'!--'+<=3 bytes; check_comments symbolic", ["double hyphen reported"], cost=9, timeout_thorough=3600),
 ]
 BUF = "one Reader<BufRead>::read_event_into() over a source delivering the rest in 2 pieces (cut symbolic) vs the reference step (== slice reader by the C01 obligations), same state; "
 C02_Q = [
@@ -114,7 +111,6 @@ C02_T = [
       ["comment terminator split as --|>", "comment terminator split as -|->", "cdata terminator split as ]|]>", "doctype end in second piece"], cost=9, timeout_thorough=3600),
     H("k_elem_split_n12", "ElementParser::feed split at every cut, <=12 bytes", []),
     H("k_pi_split_n12", "PiParser::feed split at every cut, <=12 bytes", []),
-    H("k_bang_split_n12", "BangType::parse split at every cut, <=12 bytes", [], cost=9, timeout_thorough=5400),
     H("h2_text_n5", "one XmlSource helper (read_text) on a BufRead delivering <=5 symbolic bytes in 2 pieces (cut symbolic) vs the same helper of the slice source on the same bytes (hooks verif_source)", [], cost=9, timeout_thorough=3600, mem_gb=24),
     H("h2_elem_n5", "one XmlSource helper (read_with(ElementParser)) on a BufRead delivering <=5 symbolic bytes in 2 pieces (cut symbolic) vs the same helper of the slice source on the same bytes (hooks verif_source)", [], cost=9, timeout_thorough=3600, mem_gb=24),
     H("h2_pi_n5", "one XmlSource helper (read_with(PiParser)) on a BufRead delivering <=5 symbolic bytes in 2 pieces (cut symbolic) vs the same helper of the slice source on the same bytes (hooks verif_source)", [], cost=9, timeout_thorough=3600, mem_gb=24),
@@ -160,9 +156,7 @@ C10_T = [
     H("x10_unesc_n1", "unescape on '&#?;' with 1 symbolic ASCII byte", ["reference expanded", "malformed reference"], cost=9, timeout_thorough=3600, mem_gb=30),
     H("x10_unesc_s1b", "unescape on '&l?;' with 1 symbolic ASCII byte", ["reference expanded", "malformed reference"], cost=9, timeout_thorough=3600, mem_gb=30),
     H("x10_unesc_s1a", "unescape on '&?t;' with 1 symbolic ASCII byte (lt, gt, unknown names, nested & and ;)", ["reference expanded", "malformed reference"], cost=9, timeout_thorough=3600, mem_gb=30),
-    H("x10_esc_full_mid", "escape on '<' c '>' with c symbolic (pos/new_pos bookkeeping between replacements)", ["something escaped"], cost=8),
     H("x10_esc_full_end", "escape on 'a&' c with c symbolic", ["something escaped"], cost=8),
-    H("x10_esc_min_mid", "minimal_escape on '>' c '<' with c symbolic", ["something escaped"], cost=8),
     H("x10_inv_mixed", "unescape('a&lt;b&amp;&gt;c') (concrete execution: last_end bookkeeping)", []),
 ]
 ATTR = "one Attributes::next() from an arbitrary iterator state (hook verif_with_state; <=2 recorded keys), XML/HTML mode and duplicate checking symbolic, ASCII tag content "
@@ -256,7 +250,6 @@ C17_Q = [
     H("c17_detect", "encoding::detect_encoding on every input of <=4 bytes vs the documented table", ["utf-8 bom", "utf-16le signature"], crate="enc"),
 ]
 C17_T = [
-    H("c17_bom_n2", "Reader<&[u8]> (feature encoding) on EF BB BF + <=2 symbolic bytes: first event never contains the mark, decoder is UTF-8", ["text after bom"], crate="enc", cost=9, timeout_thorough=5400, mem_gb=24),
 ]
 C07_T = [
     H("c07_s_k1", "deserialize struct S{a: String, b: Vec<String>} over scripted events: root + 1 solver-chosen inner event + tail, truncation anywhere", [], crate="serde", cost=9, timeout_thorough=5400, mem_gb=30),
